@@ -30,7 +30,7 @@ def rule_defaults_only_copied(chk, rid):
         if uses:
             n += 1
             chk.ob(rid, f"{STATE}.{fname}", fname in allowed, f"`_vars` is referenced in {fname}", uses[0], m, key="who-may-touch")
-    chk.floor(rid, n, 2, "functions touching _vars")
+    chk.floor(rid, n, 1, "functions touching _vars")
     vc = repo.func(STATE, "vars_clone")
     rets = returns_of(vc)
     ok = bool(rets) and all(isinstance(r.value, ast.Call) and call_tail(r.value) == "deepcopy" and r.value.args
